@@ -293,6 +293,15 @@ pub fn reached(cfg: &Cfg, f: &[u8]) -> (Vec<&'static str>, Option<&'static str>)
     (r, None)
 }
 
+/// the frame without its IEEE 802.1Q / 802.1ad tags
+pub fn strip_vlan(f: &[u8]) -> Vec<u8> {
+    let mut g = f.to_vec();
+    while g.len() >= 18 && [0x8100u16, 0x88a8, 0x9100].contains(&be16(&g, 12)) {
+        g.drain(12..16);
+    }
+    g
+}
+
 /// the layer names a frame's own headers lead to, whatever any layer decides about it
 pub fn header_chain(f: &[u8]) -> Vec<&'static str> {
     let mut r = vec![];
@@ -301,6 +310,10 @@ pub fn header_chain(f: &[u8]) -> Vec<&'static str> {
         None => return r,
     };
     r.push("eth");
+    // behind IEEE 802.1Q / 802.1ad tags the same chain may follow (whether the responder looks
+    // behind tags is C02's business; the log only has to be faithful to what it did)
+    let g = strip_vlan(f);
+    let v = if g.len() != f.len() { match view_request(&g) { Some(v) => v, None => return r } } else { v };
     match v.ethertype {
         ET_ARP => r.push("arp"),
         ET_V4 | ET_V6 => {
@@ -372,7 +385,9 @@ pub fn judge_events(cfg: &Cfg, f: &[u8], evs: &[Ev], replied: Option<&Vec<u8>>) 
         (Some("send"), true) | (Some("drop"), false) => {}
         (t, r) => vfail!("Ethernet terminal event is {:?} but a reply frame was {}: {}", t, if r { "emitted" } else { "not emitted" }, ctx()),
     }
-    // printed addresses and ports are those of the frame
+    // printed addresses and ports are those of the frame (looked at behind VLAN tags, if any)
+    let untagged = strip_vlan(f);
+    let f: &[u8] = &untagged;
     let v = view_request(f).unwrap();
     let mut macs = vec![mac_s(&v.src), mac_s(&v.dst), mac_s(&cfg.mac)];
     let mut ips: Vec<String> = vec![];
